@@ -1717,6 +1717,9 @@ def _parse_guard(text: str):
             items = _split_commas(t[len(fn_):-2])
             if items:
                 return (op_, [_parse_guard(x) for x in items])
+    for neg_, pos_ in (("IsNot", "Is"), ("NotEq", "Eq"), ("NotIn", "In")):
+        if t.startswith(f"cmp[{neg_}](") and t.endswith(")"):
+            return ("not", ("atom", f"cmp[{pos_}](" + t[len(neg_) + 6:]))
     m = re.fullmatch(r"cmp\[LtE\]\((.*)\)", t)
     if m:
         ab = _split_commas(m.group(1))
